@@ -50,6 +50,17 @@ func c06GLGadget(api frontend.API, in []frontend.Variable) []frontend.Variable {
 	return nil
 }
 
+// c06QEGadget: the extension-field range check (both coordinates must be canonical);
+// the value under test sits in coordinate k, the other coordinate is a fixed canonical value.
+func c06QEGadget(k int) gadget.Fn {
+	return func(api frontend.API, in []frontend.Variable) []frontend.Variable {
+		e := gl.QuadraticExtensionVariable{gl.NewVariable(7), gl.NewVariable(7)}
+		e[k] = gl.NewVariable(in[0])
+		gl.New(api).RangeCheckQE(e)
+		return nil
+	}
+}
+
 func c06BitsGadget(n int) gadget.Fn {
 	return func(api frontend.API, in []frontend.Variable) []frontend.Variable {
 		gl.New(api).RangeCheckWithMaxBits(gl.NewVariable(in[0]), uint64(n))
@@ -432,6 +443,10 @@ func init() {
 							env = envBD
 						}
 						add(exec, mech, "gl", 0, env)
+						if exec == "engine" || mech == "commit" || !ctx.Quick {
+							add(exec, mech, "qe0", 0, env)
+							add(exec, mech, "qe1", 0, env)
+						}
 						for _, n := range widthsFor(mech, exec) {
 							add(exec, mech, "bits", n, env)
 						}
@@ -472,9 +487,14 @@ func init() {
 					return o
 				}
 				exec, mech, gad, n := c.Str("exec"), c.Str("mech"), c.Str("gadget"), c.Int("n")
-				isGL := gad == "gl"
+				isGL := gad == "gl" || gad == "qe0" || gad == "qe1"
 				fn := gadget.Fn(c06GLGadget)
-				if !isGL {
+				switch {
+				case gad == "qe0":
+					fn = c06QEGadget(0)
+				case gad == "qe1":
+					fn = c06QEGadget(1)
+				case !isGL:
 					fn = c06BitsGadget(n)
 				}
 				nrand := 24
